@@ -206,6 +206,7 @@ INT_WORDS = ["3", "007", "5", "-1", "+2", "1_0", "0", "12", " 4 ", "x", "2.5", "
 FLOAT_WORDS = ["30", "12.5", "0.25", ".5", "7.", " 3 ", "+4", "-1.5", "1_0.5", "120", "0", "2.50", "abc", "", "1,5", "1.2.3", ".", "-", "1._5"]
 STR_WORDS = ["", "x", "gz", "xz", "none", "zip", "malware-detection", "compliance", "default", "nosuchapp",
              "insights.client.apps.foo", "os.system", "text/plain", "a b", "é€", "True", "0", "/var/log/x.log"]
+KW_UNKNOWN = ["no_schedule", "foo", "load_all", "_update_dict", "__class__", "bar_baz", "offline2", "conf_dir"]
 UNKNOWN = ["no_schedule", "foo", "load_all", "_print_errors", "_update_dict", "__class__", "bar_baz", "offline2", "conf_dir"]
 
 
@@ -305,6 +306,7 @@ def gen_sources(rng, names, heavy=False):
         if k.lower() not in seen:
             seen.add(k.lower())
             uniq.append([k, v])
+    seen_file = set(seen)
     seen, env = set(), []
     for k, v in case["env"]:
         if k.upper() not in seen or rng.random() < 0.5:
@@ -320,8 +322,21 @@ def gen_sources(rng, names, heavy=False):
         k = rng.choice(["offline", "no_gpg", "obfuscate", "obfuscate_hostname", "username", "foo", "retries", "to_json", "output_dir"])
         case["kw"][k] = {"offline": True, "no_gpg": True, "obfuscate": True, "obfuscate_hostname": True, "username": "kwuser",
                          "foo": 1, "retries": 5, "to_json": True, "output_dir": T + "/new1"}[k]
-    case["pe"] = rng.random() < 0.2
+    # unknown names in EVERY external source at once (file, environment, constructor kwargs), in a share of the cases
+    if rng.random() < 0.3:
+        u = rng.sample(UNKNOWN, 3)
+        if kind in ("section", "legacy") and u[0] not in seen_file:
+            uniq.append([u[0], rng.choice(STR_WORDS + ["True"])])
+        case["env"].append(["INSIGHTS_" + u[1].upper(), rng.choice(STR_WORDS + ["true"])])
+        case["kw"][rng.choice(KW_UNKNOWN)] = rng.choice([True, "x", 1])
+        case["unknown_sweep"] = True
+    case["pe"] = pe_choice(rng)
     return case
+
+
+def pe_choice(rng):
+    """_print_errors: None = not passed to the constructor, False / True = passed explicitly"""
+    return rng.choice([None, None, False, True, True])
 
 
 # ----------------------------------------------------------------------------- running the implementation
@@ -371,8 +386,8 @@ def argv_of(scr, case):
 def run_impl(scr, case, construct_only=False):
     """-> (tag, payload): ("OK", vars) | ("VE", message) | ("EXIT", code) | ("NOSECTION", msg) | ("CRASH", repr)"""
     kw = dict((k, scr.sub(v)) for k, v in case["kw"].items())
-    if case.get("pe"):
-        kw["_print_errors"] = True
+    if case.get("pe") is not None:
+        kw["_print_errors"] = bool(case["pe"])
     if not construct_only:
         write_files(scr, case)
     with Quiet():
@@ -618,7 +633,7 @@ def oracle(chk, scr, case, res, stream):
 
 
 def case_for_replay(case, stream):
-    return {"stream": stream, "kw": case["kw"], "files": case["files"], "env": case["env"], "cli": case["cli"], "pe": case.get("pe", False)}
+    return {"stream": stream, "kw": case["kw"], "files": case["files"], "env": case["env"], "cli": case["cli"], "pe": case.get("pe")}
 
 
 # ----------------------------------------------------------------------------- regression witness (fixed: 8686086)
@@ -671,6 +686,9 @@ def run_stream(chk, scr, cases, op, name):
         res = run_impl(scr, c, construct_only=(op == "construct"))
         results.append(res)
         chk.count("%s:outcome:%s" % (name, res[0]))
+        chk.count("%s:_print_errors:%s" % (name, {None: "absent", False: "False", True: "True"}[c.get("pe")]))
+        if any(k not in DEFAULT_OPTS for k in c["kw"]) or c.get("unknown_sweep"):
+            chk.count("%s:has-unknown-names" % name)
         oracle(chk, scr, c, res, "construct" if op == "construct" else "load")
     model = driver(chk, lines)
     impl = [impl_line(r, m) for r, m in zip(results, model)]
@@ -678,14 +696,30 @@ def run_stream(chk, scr, cases, op, name):
     return results, model
 
 
+def require_repo():
+    """
+    The code under test must be the tree `$VERIF_REPO or /repo`.  If that path does not hold insights/client/config.py
+    Python silently falls back to the installed (editable) package, i.e. the UNCHANGED /repo, and every stream would
+    be judged on the wrong code: that is an infrastructure error (exit 2), never a verdict.
+    """
+    import insights.client.config as m
+    want = os.path.realpath(os.path.join(REPO, "insights", "client", "config.py"))
+    got = os.path.realpath(m.__file__)
+    if not os.path.isfile(want) or got != want:
+        raise RuntimeError("VERIF_REPO=%s: insights.client.config was imported from %s, expected %s (%s)"
+                           % (REPO, got, want, "exists" if os.path.isfile(want) else "missing"))
+
+
 def run(chk):
+    require_repo()
     rng = chk.rng
     quick = chk.tier == "quick"
     chk.rule = ("construct: every assignment of the 15 booleans the property names (offline, no_upload, register, auto_update, "
                 "keep_archive, to_json, status, test_connection, checkin, unregister, check_results, diagnosis, quiet, obfuscate, "
                 "obfuscate_hostname) through InsightsConfig(**kwargs); load_all: random subsets of all options (biased to those "
                 "booleans, the output/compressor/app options and the numeric options), each placed in a random subset of "
-                "{file, environment, command line} with a random spelling per source, plus unknown names, decoy variables, "
+                "{file, environment, command line} with a random spelling per source, plus unknown names (30% of the cases carry one in "
+                "the file AND the environment AND the constructor kwargs), decoy variables, _print_errors absent/False/True, "
                 "legacy / missing / malformed files; non-trivial = a distinct case whose sources set at least one option")
     chk.assumptions = [
         "translator translate/config.py (ast -> Lean) is trusted for the SHAPE of the transcription; its symbolic results are re-proved by Lean and its output is tied to the code by the construct/load_all streams",
@@ -728,7 +762,9 @@ def run(chk):
             for i, k in enumerate(CORE_BOOLS[:nb]):
                 if (m >> i) & 1:
                     kw[k] = not DEFAULT_OPTS[k]["default"] if type(DEFAULT_OPTS[k]["default"]) is bool else True
-            cases.append({"kw": kw, "files": {}, "env": [], "cli": [], "pe": False})
+            if m % 4 == 2:                                        # offline off: most of these load successfully
+                kw[KW_UNKNOWN[(m // 4) % len(KW_UNKNOWN)]] = True      # an unknown keyword argument must never become a setting
+            cases.append({"kw": kw, "files": {}, "env": [], "cli": [], "pe": [None, False, True][m % 3]})
             chk.case(("construct", m), m != 0)
         run_stream(chk, scr, cases, "construct", "construct-exhaustive")
         chk.sample({"construct": cases[5]["kw"]})
@@ -742,9 +778,9 @@ def run(chk):
                 kind = opt_kind(k)
                 kw[k] = (rng.random() < 0.7) if kind == "bool" else rng.choice([0, 1, 2, 3, 5]) if kind == "int" else \
                     rng.choice([1.5, 30.0]) if kind == "float" else str_value(rng, k)
-            if rng.random() < 0.2:
-                kw[rng.choice(UNKNOWN)] = rng.choice([True, "x"])
-            cases.append({"kw": kw, "files": {}, "env": [], "cli": [], "pe": rng.random() < 0.1})
+            if rng.random() < 0.35:
+                kw[rng.choice(KW_UNKNOWN)] = rng.choice([True, "x"])
+            cases.append({"kw": kw, "files": {}, "env": [], "cli": [], "pe": pe_choice(rng)})
             chk.case(("construct-r", json.dumps(kw, sort_keys=True)), True)
         run_stream(chk, scr, cases, "construct", "construct-random")
 
@@ -792,6 +828,10 @@ def run(chk):
 
 
 def replay(data):
+    require_repo()
+    if data.get("kind") == "broken-tie" or "case" not in data:
+        print("broken tie, no failing input recorded:", json.dumps(data.get("broken"))[:2000])
+        return 1
     case = data["case"]
     print("replaying", json.dumps(case)[:2000])
     scr = Scratch()
